@@ -14,6 +14,7 @@ import CalicoVerif.Proofs.C01Fresh
 import CalicoVerif.Proofs.C01ProfTab
 import CalicoVerif.Proofs.C01Mem
 import CalicoVerif.Proofs.C01Ipsets
+import CalicoVerif.Proofs.C01Gen
 /-!
 C01 — Felix's computed dataplane state depends only on current datastore state.
 
@@ -65,6 +66,20 @@ What is PROVED (all histories, all flush placements):
   the address width).  `_partial` = the UNMODELLED nodes (routes/VTEPs, …, see Model/C01 header).  The model
   and `fresh` are tied to the REAL ValidationFilter→CalcGraph→EventSequencer by the correspondence run (after
   every flush, and `accumulate = fresh(lastState)` at every `check` line).
+
+COVERAGE BY MESSAGE KIND (from `NewCalculationGraph` / `EventSequencer.Flush`):
+* Lean composition + correspondence run: `IPSetUpdate/IPSetDeltaUpdate/IPSetRemove` (selector and named-port
+  sets), `ActivePolicyUpdate/Remove`, `ActiveProfileUpdate/Remove` (rule content = opaque class + IP-set ids),
+  `WorkloadEndpointUpdate/Remove`, `HostEndpointUpdate/Remove` with their per-tier ordered policy lists and
+  profile ids (other endpoint content = opaque class), `IPAMPoolUpdate/Remove` (DataplanePassthru for IP pools:
+  generic pass-through lemma `passthru_node_history_independent_generic`, content = opaque class), their
+  ordering/batching, and "invalid = absent";
+* REAL graph, harness history-vs-fresh oracle only: `RouteUpdate/Remove`, `VXLANTunnelEndpointUpdate/Remove`
+  (L3RouteResolver, VXLANResolver), `HostMetadataUpdate/Remove` (DataplanePassthru's stateful node handling),
+  `Encapsulation` (EncapsulationResolver), `ConfigUpdate` (ConfigBatcher), `InSync` — all exercised;
+* REAL graph, NOT exercised by the c01 universe: `WireguardEndpoint(V6)Update/Remove`, `GlobalBGPConfigUpdate`,
+  `ServiceUpdate/Remove` + service IP sets (ServiceIndex), `ServiceAccount…`/`Namespace…` (ProfileDecoder),
+  endpoint computed data (live migration, Istio), per-endpoint BGP peer data, PerformanceHints, LookupsCache.
 -/
 namespace CalicoVerif.C01
 open CalicoVerif C02
@@ -99,7 +114,8 @@ def Fresh.toDP (f : Fresh) : DP :=
   { ipsets := fun id => (f.ipsets.find? (fun p => p.1 = id)).map (fun p m => decide (m ∈ p.2.2))
     pol := fun k => mget f.pols k
     prof := fun k => mget f.profs k
-    ep := fun k => (mget f.eps k).map (epDown k) }
+    ep := fun k => (mget f.eps k).map (epDown k)
+    gen := fun c k => mget f.gen (c, k) }
 
 /-- The driver's printable, list-based accumulation (`Acc`, printed after every flush and compared with
 the real graph) denotes exactly `accumulate`. -/
@@ -403,6 +419,23 @@ theorem declared_ipsets_eq_spec_partial (H : IdFn) (s : Bool) (h : List HStep) (
     (fun k => active_policies_eq_datastore H s h N hw.histOk k) hpk
     (fun p => activeProfs_eq_ds hpi ht hd (active_profiles_eq_c05_spec_partial H s (h ++ [.flush]) p)) id
 
+/-- PASS-THROUGH NODES (generic; all histories): a node that forwards each update of a key as update/remove
+declares, after ANY history, per key exactly the last value written (nothing after a delete / if never
+written) — a function of the current datastore contents only. -/
+theorem passthru_node_history_independent_generic {κ β : Type} [DecidableEq κ] (h : List (κ × Option β)) (k : κ) :
+    mget (h.foldl (fun m u => setOrDel u.1 u.2 m) []) k = (lastWrite h k).getD none :=
+  passthru_node_history_independent h k
+
+/-- PASS-THROUGH OBJECTS inside the composed graph (all histories, any flush placement; instantiates the generic
+lemma per category: IP pools `IPAMPoolUpdate/Remove`, Kubernetes services, service accounts, namespaces, host
+metadata — whatever the harness feeds as `passthru`): the declared objects of every category are, per key, the
+last value the history wrote; no other node of the graph ever makes such a call. -/
+theorem declared_passthru_eq_last_write_partial (H : IdFn) (s : Bool) (h : List HStep) (c : GenCat) (k : String) :
+    (decl (run H (Graph.new s) h).1).gen c k = (lastWrite (genWrites h) (c, k)).getD none := by
+  have hi := genInv_run H h (genInv_new s)
+  rw [hi c k, lastState_gen h {}]
+  exact passthru_node_history_independent (genWrites h) (c, k)
+
 /-- END-TO-END (partial: modelled nodes only, and under the named `RemainingContract`): for every
 history `h` of datastore updates (duplicates, reverts, spurious deletes, invalid values = deletes) with
 flushes anywhere, followed by a final flush, the dataplane state described by everything emitted
@@ -440,7 +473,12 @@ theorem calc_history_independent_partial (H : IdFn) (s : Bool) (h : List HStep)
   have hips : (decl (run H (Graph.new s) (h ++ [.flush])).1).ipsets = (fresh H s (lastState h)).toDP.ipsets := by
     obtain ⟨N, hN⟩ := hc.wellFormed
     exact declared_ipsets_eq_spec_partial H s h N hN hc.idInj
-  exact DP.ext' hips hpol hprof hep ho.1 ho.2.1 ho.2.2
+  have hgen : (decl (run H (Graph.new s) (h ++ [.flush])).1).gen = (fresh H s (lastState h)).toDP.gen := by
+    funext c k
+    have hi := genInv_noGen (genInv_run H h (genInv_new s)) (noGen_flush (run H (Graph.new s) h).1) rfl
+    rw [← run_snoc_flush] at hi
+    exact hi c k
+  exact DP.ext' hips hpol hprof hep ho.1 ho.2 hgen
 
 /-- RULE SCANNER node theorem (all histories of OnPolicyActive/Inactive, OnProfileActive/Inactive):
 `key` references exactly the IP sets of its latest rules; the OnIPSetActive / OnIPSetInactive events are a
@@ -490,11 +528,14 @@ def exHist : List HStep :=
    .upd (.profLabels "p0" (some [("a", "x")])),       -- now the policy matches through the profile
    .inSync, .flush,
    .upd (.profLabels "p0" none), .upd (.profLabels "p0" (some [("a", "x")])),   -- revert
-   .upd (.netset "n" none)]                             -- spurious delete
+   .upd (.netset "n" none),                             -- spurious delete
+   .upd (.passthru .pool "10.0.0.0-16" (some "poolA")), .upd (.passthru .pool "10.0.1.0-24" (some "poolB")),
+   .upd (.passthru .pool "10.0.1.0-24" none)]           -- IP pools through the pass-through node; one deleted again
 
 /-- the model runs the example without a panic and emits 7 messages … -/
 example : (run exH (Graph.new true) (exHist ++ [.flush])).1.panicked = false := by decide
-example : (run exH (Graph.new true) (exHist ++ [.flush])).2.length = 7 := by decide
+example : (run exH (Graph.new true) (exHist ++ [.flush])).2.length = 8 := by decide
+example : (fresh exH true (lastState exHist)).gen = [((.pool, "10.0.0.0-16"), "poolA")] := by decide
 /-- … in the final datastore the policy matches the local endpoint through the inherited label,
 profile `p0` is referenced but has no rules (deny stand-in), one IP set is needed -/
 example : (lastState exHist).matched = [(⟨"pol0", "", "gnp"⟩, .wep "w0")] := by decide
@@ -561,7 +602,7 @@ theorem exHist_contract : RemainingContract injH true exHist := by
     · rfl
   · intro st hst
     simp only [exHist, List.mem_cons, List.not_mem_nil, or_false] at hst
-    rcases hst with rfl | rfl | rfl | rfl | rfl | rfl | rfl | rfl | rfl | rfl
+    rcases hst with rfl | rfl | rfl | rfl | rfl | rfl | rfl | rfl | rfl | rfl | rfl | rfl | rfl
     · exact ⟨trivial, trivial, trivial⟩
     · refine ⟨?_, ?_, trivial⟩
       · show (⟨"pol0", "", "gnp"⟩ : PolicyKey) = exNumbering.pk 0
@@ -575,6 +616,9 @@ theorem exHist_contract : RemainingContract injH true exHist := by
     · exact ⟨trivial, trivial, trivial⟩
     · trivial
     · trivial
+    · exact ⟨trivial, trivial, trivial⟩
+    · exact ⟨trivial, trivial, trivial⟩
+    · exact ⟨trivial, trivial, trivial⟩
     · exact ⟨trivial, trivial, trivial⟩
     · exact ⟨trivial, trivial, trivial⟩
     · exact ⟨trivial, trivial, trivial⟩
